@@ -56,9 +56,9 @@ def r_expr(e):
     if k == "var":
         return e["name"]
     if k == "bin":
-        return "(%s %s %s)" % (r_expr(e["l"]), e["op"], r_expr(e["r"]))
+        return "(%s %s %s)" % (r_expr(e["l"]), e.get("sp", e["op"]), r_expr(e["r"]))
     if k == "lazy":
-        return "(%s %s %s)" % (r_expr(e["l"]), e["op"], r_block(e["body"]))
+        return "(%s %s %s)" % (r_expr(e["l"]), e.get("sp", e["op"]), r_block(e["body"]))
     if k == "not":
         return "(!%s)" % r_expr(e["x"])
     if k == "neg":
@@ -159,6 +159,13 @@ def render(stmts, lines=True):
     return sep.join(r_stmt(s) for s in stmts) + ";"
 
 
+def spelled(e, r):
+    """&& / || have the keyword spellings and / or (same operators, registered separately)"""
+    if r.random() < 0.4:
+        e["sp"] = {"&&": "and", "||": "or"}[e["op"]]
+    return e
+
+
 # ---------------------------------------------------------------- random generation
 class Gen:
     """Typed random generator. Profiles switch constructs on/off (open findings are steered around by
@@ -247,9 +254,9 @@ class Gen:
         if k == "not":
             return {"k": "not", "x": self.e_bool(d - 1)}
         if k == "and":
-            return binop(r.choice(["&&", "||"]), self.e_bool(d - 1), self.e_bool(d - 1))
+            return spelled(binop(r.choice(["&&", "||"]), self.e_bool(d - 1), self.e_bool(d - 1)), r)
         if k == "lazy":
-            return {"k": "lazy", "op": r.choice(["&&", "||"]), "l": self.e_bool(d - 1), "body": self.block(d - 1, "bool")}
+            return spelled({"k": "lazy", "op": r.choice(["&&", "||"]), "l": self.e_bool(d - 1), "body": self.block(d - 1, "bool")}, r)
         raise ValueError(k)
 
     def e_arr_lit(self, d, minlen=0):
@@ -294,15 +301,26 @@ class Gen:
         self.mark_no += 1
         return mark(num(1000 + self.mark_no))
 
-    def stmt(self, d):
+    def stmt(self, d, force=None):
         r = self.rng
-        k = self.pick(["mark", "assign", "expr", "expr", "exprarr", "if", "exitwith", "while", "for", "foreach", "scoped", "private", "junk"])
-        if d <= 0 and k in ("if", "exitwith", "while", "for", "foreach", "scoped"):
+        k = force or self.pick(["mark", "assign", "expr", "expr", "exprarr", "if", "exitwith", "while", "for", "foreach", "scoped", "private", "junk", "obs"])
+        if d <= 0 and k in ("if", "exitwith", "while", "for", "foreach", "scoped", "obs"):
             k = "assign"
         if self.no_exit and k == "exitwith":
             k = "mark"
         if k == "mark":
             return [self.new_mark()]
+        if k == "obs":
+            # the value of a block whose last statement is a loop, an if or any other statement, observed in an array
+            self.no_exit += 1
+            body = self.block(d - 1, "any")
+            last = r.choice(["while", "while", "for", "foreach", "if", None])
+            if last:
+                body += self.stmt(max(d - 1, 1), force=last)
+            self.no_exit -= 1
+            wrap = r.choice(["call", "if", "try"])
+            x = call(body) if wrap == "call" else {"k": "if", "c": boolean(True), "th": body, "el": [st_expr(num(0))]} if wrap == "if" else {"k": "try", "body": body, "handler": [st_expr(num(0))]}
+            return [mark(arr(num(7), x))]
         if k == "assign":
             return [assign(r.choice(self.numvars), self.e_num(d))]
         if k == "private":
